@@ -119,7 +119,7 @@ class World:
                 if all(w == 0 for w in ws):
                     ws[0] = 1.0
                 s = {"op": "represent", "args": {"keys": keys, "weights": ws, "N": n_over or r.choice([1, 2, 3, 5, 10, 33, 100, 257]),
-                                                 "keystyle": r.choice(["tuple", "str"])}}
+                                                 "keystyle": r.choice(["tuple", "str"]), "f32": r.random() < 0.12}}
             else:
                 m = r.randint(1, 8)
                 ws = [r.choice([1, 2, 3, 0.5, 1.5, 1 / 3, r.uniform(0.01, 10)]) for _ in range(m)]
@@ -324,7 +324,7 @@ class World:
 
         n = ctx.config["n"]
         keys = [tuple((k >> (n - 1 - q)) & 1 for q in range(n)) for k in a["keys"]]
-        src = {(k if a["keystyle"] == "tuple" else "".join(map(str, k))): w for k, w in zip(keys, a["weights"])}
+        src = {(k if a["keystyle"] == "tuple" else "".join(map(str, k))): (np.float32(w) if a.get("f32") else w) for k, w in zip(keys, a["weights"])}
         ok, dist = call(MeasurementOutcomeDistribution, dict(src))
         if not ok:
             ctx.log("represent", "bad-distribution")
@@ -333,6 +333,14 @@ class World:
         N = a["N"]
         ok, res = call(Measurements.get_measurements_representing_distribution, dist, N)
         ctx.called("get_measurements_representing_distribution")
+        if not ok and a.get("f32"):
+            # single-precision weights: the normalised probabilities miss 1 by ~1e-8 and numpy's sampler may refuse them.
+            # A refusal loses no shot; an ANSWER is judged like any other (exactly N shots, all on the support)
+            ctx.probe("represent-refused-float32")
+            ctx.log("represent", "refused-f32")
+            return
+        if ok and a.get("f32"):
+            ctx.probe("represent-float32-answered")
         ctx.check(ok, "unexpected-reject", "represent", lambda: f"representing {before} with {N} shots raised {type(res).__name__}: {res}")
         with judge(ctx):
             bs = res.bitstrings
